@@ -88,6 +88,12 @@ func c15Worlds(c *fw.Ctx) []c15Init {
 		g.MustRun("update-ref", "refs/tags/u", h2) // a packed line AFTER the tag's "^peeled" line
 		g.MustRun("pack-refs", "--all")
 	})
+	// two loose references side by side in one nested directory (refs/heads/a/c is never operated on)
+	mk("loose-siblings", func(g *fw.Git, h1, h2, tag string) {
+		g.MustRun("update-ref", "refs/heads/a/b", h1)
+		g.MustRun("update-ref", "refs/heads/a/c", h2)
+		g.MustRun("update-ref", "refs/tags/t", tag)
+	})
 	mk("loose-symref", func(g *fw.Git, h1, h2, tag string) {
 		g.MustRun("update-ref", "refs/heads/a", h1)
 		g.MustRun("symbolic-ref", "refs/remotes/o/HEAD", "refs/heads/a")
@@ -304,6 +310,49 @@ func (s *c15Sys) Observe() (string, string) {
 		if err != nil {
 			got = append(got, "list-error "+err.Error())
 		}
+	}
+	// look-ahead probe: an empty directory left below refs/<category>/ stands
+	// where a reference file may have to go. On a clone of the world the names
+	// the map still holds below it are removed and the directory's own name is
+	// set: a map accepts that, so the store must (names the map holds ABOVE it
+	// make the case a D/F conflict, which is left open).
+	ents := s.w.List("/wt/.git/refs")
+	for i, e := range ents {
+		if e.Kind != "dir" || strings.Count(e.Path, "/") < 1 {
+			continue
+		}
+		if i+1 < len(ents) && strings.HasPrefix(ents[i+1].Path, e.Path+"/") {
+			continue // not empty
+		}
+		name := "refs/" + e.Path
+		m2 := map[string]string{}
+		for k, v := range s.model {
+			if !strings.HasPrefix(k, name+"/") {
+				m2[k] = v
+			}
+		}
+		if dfConflict(m2, name) || plumbing.ReferenceName(name).Validate() != nil {
+			continue
+		}
+		w2 := s.w.Clone()
+		st2 := filesystem.NewStorage(w2.View("/wt/.git", "probe"), cache.NewObjectLRUDefault())
+		res := "ok"
+		for k := range s.model {
+			if strings.HasPrefix(k, name+"/") {
+				if err := st2.RemoveReference(plumbing.ReferenceName(k)); err != nil {
+					res = "remove-below-fails"
+				}
+			}
+		}
+		if res == "ok" {
+			if err := st2.SetReference(plumbing.NewHashReference(plumbing.ReferenceName(name), plumbing.NewHash(s.init.h1))); err != nil {
+				res = "fail"
+			} else if r, err := st2.Reference(plumbing.ReferenceName(name)); err != nil || r.Hash().String() != s.init.h1 {
+				res = "not-readable"
+			}
+		}
+		exp = append(exp, "probe: set the name of an emptied directory ok")
+		got = append(got, "probe: set the name of an emptied directory "+res)
 	}
 	sort.Strings(exp)
 	sort.Strings(got)
